@@ -49,7 +49,7 @@ CONSTANTS Tiny,       \* TRUE: reduced alphabet, free exploration (every path x 
           MaxSteps,   \* depth of the free exploration
           EmitOut,    \* write every step to IOEnv.OUT
           Seed, Stride,   \* subsample of the shapes: those with (index * 7919 + Seed) % Stride = 0
-          Bound       \* Level I byte loop: copies bytes 0 .. size-1+Bound  (0 = chibicc; -1 / 1 must be rejected)
+          Bound       \* Level I byte loop: copies bytes 0 .. size-1-Bound  (0 = chibicc; 1 must be rejected)
 
 L == INSTANCE Layout WITH MaxLen <- 2, Small <- FALSE, Pinned <- FALSE, Emit <- FALSE,
        union <- FALSE, attr <- [packed |-> FALSE, aln |-> 0], ms <- <<>>, curA <- 0, curI <- 0
@@ -321,7 +321,7 @@ OpAssign(pi, op) ==
 (* obj = src  (also spelled *p = *q, and as a struct returned by value) *)
 CopyA(m) == [m EXCEPT !.obj = Mask(m.src, vm)]
 (* Level I: store() copies size bytes one at a time *)
-CopyI(m) == [m EXCEPT !.obj = FoldLeft(LAMBDA acc, i : IF i < T.sz + Bound /\ i < Len(acc) THEN [acc EXCEPT ![i + 1] = m.src[i + 1]] ELSE acc,
+CopyI(m) == [m EXCEPT !.obj = FoldLeft(LAMBDA acc, i : IF i < T.sz - Bound /\ i < Len(acc) THEN [acc EXCEPT ![i + 1] = m.src[i + 1]] ELSE acc,
                                        m.obj, Range0(T.sz + 1))]
 CopyAgg == Step(CopyA(mem), [act |-> "copy", pi |-> 0, v |-> "", op |-> "", res |-> <<>>, pos |-> 0, w |-> T.sz * 8, unspec |-> TRUE])
 
@@ -370,8 +370,11 @@ Spec == Init /\ [][Next]_vars
 ----------------------------------------------------------------------------
 (* Invariants *)
 LastPath == ps[last.pi]
+(* a bit-field of a union may share a byte with the padding of another member that an aggregate store
+   left unspecified; such a byte stays unspecified and is not compared                              *)
+Defined(m, pos, w) == \A j \in (pos \div 8 + 1)..((pos + w - 1) \div 8 + 1) : m[j] >= 0
 RoundTrip ==
-  last.act \in {"store", "opassign"} =>
+  (last.act \in {"store", "opassign"} /\ Defined(mem.obj, last.pos, last.w)) =>
      LET p == LastPath
          got == GetBits(mem.obj, p.pos, Width(p), p.ty.sg) IN
      /\ last.op \notin {"postinc", "postdec"} => got = last.res
